@@ -45,17 +45,17 @@ reg("C03", "fault_enumeration",
     "injected (the statement says 'whatever the CA or the network did'). Non-trivial = at least one attempt ran to its end marker with pair "
     "snapshots taken at begin and end; distinct = distinct normalised trace hashes among those.",
     quick=[("F2", 100000), ("F3", 1500)],
-    thorough=[("F2", 100000), ("F3", 60000)],
-    exhaustive_families=["F2"])
+    thorough=[("F2", 100000), ("F2b", 100000), ("F3", 60000)],
+    exhaustive_families=["F2", "F2b"])
 
 reg("C07", "fault_enumeration",
     "F2 (exhaustive single network/CA fault grid, see C03), F2h (every hook position x exit code kinds), F2s (storage errors at every "
     "file operation), F3 (random multi-fault sequences over several attempts), F3m (1..6 certificates sharing account and endpoint, any subset "
     "failing permanently). Oracles: no panic; every attempt ends; one post-operation batch per attempt with a faithful report; >= 1 s between "
     "a failed attempt and the next one; healthy certificates are issued. Non-trivial = a run in which at least one attempt failed.",
-    quick=[("F2", 100000), ("F3", 800), ("F3m", 600)],
-    thorough=[("F2", 100000), ("F3", 60000), ("F3m", 20000)],
-    exhaustive_families=["F2"])
+    quick=[("F2", 100000), ("F2h", 100000), ("F2s", 100000), ("F3", 800), ("F3m", 500)],
+    thorough=[("F2", 100000), ("F2b", 100000), ("F2h", 100000), ("F2s", 100000), ("F3", 60000), ("F3m", 20000)],
+    exhaustive_families=["F2", "F2b", "F2h", "F2s"])
 
 reg("C02", "exploration",
     "F4: renewal histories (1..2 certificates, 1..8 issuances each) in which the CA's chain length (1..4) and lifetime change per issuance, "
@@ -63,8 +63,8 @@ reg("C02", "exploration",
     "completed write through the storage seam the real file is read back and must equal exactly the bytes written; after every successful attempt "
     "the certificate file equals the CA's served body byte for byte and the key file is the CSR's key. Non-trivial = a run in which an existing "
     "file was rewritten.",
-    quick=[("F4", 1200)],
-    thorough=[("F4", 50000)])
+    quick=[("F4", 1000), ("F6", 250)],
+    thorough=[("F4", 50000), ("F6", 10000), ("F6x", 20000)])
 
 reg("C06", "exploration",
     "F4: renewal histories over up to 4000 virtual days: CA lifetimes from already-expired to 10 years, renew_delay/random_early_renew from 0s to "
@@ -91,7 +91,7 @@ reg("C04", "exploration",
     "key roll-overs, re-registration). Every POST the transport seam delivers is verified by the model CA's independent JWS verifier: flattened shape, protected members, alg<->key, "
     "url == request URL, nonce in issued minus consumed, jwk xor kid discipline, signature under the key on record (fixed-width R||S). Non-trivial = at least one POST verified; "
     "ECDSA signatures with a leading-zero component are counted (reach by volume).",
-    quick=[("F1", 1500)], thorough=[("F1", 100000)],
+    quick=[("F1", 1200), ("F6k", 42), ("F5", 250), ("F6", 250)], thorough=[("F1", 100000), ("F6k", 42), ("F5", 30000), ("F6", 10000), ("F6x", 20000)],
     assumptions=["judged on fault-free families only: after an injected lost reply or failed nonce fetch the daemon legitimately re-uses its last nonce"])
 
 reg("C13", "exploration",
